@@ -541,6 +541,101 @@ class DB:
                     work.append(t)
         return seen
 
+    def rta(self, roots):
+        """Rapid type analysis: (reachable function ids, instantiated records). Virtual calls are resolved
+        against the classes instantiated in the reachable part of the program only."""
+        reach, inst = {}, set()
+        work = []
+        pending = []   # (caller fid, node, candidate ids) virtual calls waiting for instantiations
+
+        def add(fid, caller, node):
+            if fid in self.funcs and fid not in reach:
+                reach[fid] = (caller, node)
+                work.append(fid)
+
+        def feasible(mid):
+            rec = self.method_decl.get(mid, (None,))[0]
+            if rec is None:
+                f = self.funcs.get(mid)
+                rec = f.rec if f else None
+            if rec is None:
+                return True
+            return rec in inst or bool(self.all_subclasses(rec) & inst)
+
+        for r in roots:
+            rid = r.id if isinstance(r, Func) else r
+            add(rid, None, None)
+            if rid in self.funcs and self.funcs[rid].is_ctor and self.funcs[rid].rec:
+                inst.add(self.funcs[rid].rec)
+        while work or pending:
+            while work:
+                fid = work.pop()
+                f = self.funcs[fid]
+                if f.is_ctor and f.rec:
+                    pass
+                for n in f.nodes():
+                    k = n["k"]
+                    if k in ("CXXConstructExpr", "CXXTemporaryObjectExpr"):
+                        if n.get("rec"):
+                            inst.add(n["rec"])
+                        if n.get("f"):
+                            add(n["f"], fid, n)
+                    elif k in ("CallExpr", "CXXMemberCallExpr", "CXXOperatorCallExpr"):
+                        mid = n.get("f")
+                        if mid is None:
+                            continue
+                        if n.get("fvirt") and n.get("member") and not n.get("qualified"):
+                            pending.append((fid, n, [mid] + sorted(self.all_overriders(mid))))
+                        else:
+                            add(mid, fid, n)
+                        # std::make_unique<T>(...) etc. instantiate T
+                        if callee_name(n) in ("make_unique", "make_shared") and n.get("targs"):
+                            ta = n["targs"][0]
+                            if "t" in ta and f.types[ta["t"]].get("rec"):
+                                rec = f.types[ta["t"]]["rec"]
+                                inst.add(rec)
+                                for c in self.funcs.values():
+                                    if c.rec == rec and c.is_ctor:
+                                        add(c.id, fid, n)
+                    elif k == "CXXDeleteExpr":
+                        t = f.type(n["sub"])
+                        pt = f.pointee(t) if t else None
+                        if pt and pt.get("rec"):
+                            for d in self.dtor_targets(pt["rec"]):
+                                drec = self.funcs[d].rec
+                                if drec == pt["rec"] or drec in inst:
+                                    add(d, fid, n)
+                    elif k == "LambdaExpr":
+                        add(n["lambda"], fid, n)
+                    elif k == "CXXNewExpr":
+                        at = f.types[n["alloct"]]
+                        if at.get("rec"):
+                            inst.add(at["rec"])
+                if f.cfg:
+                    for b in f.cfg.blocks.values():
+                        for e in b["e"]:
+                            if isinstance(e, dict) and "dtor" in e:
+                                t = f.types[e["t"]]
+                                if t.get("rec"):
+                                    for d in self.dtor_targets(t["rec"], virtual=False):
+                                        add(d, fid, None)
+            still = []
+            for caller, n, cands in pending:
+                rest = []
+                for c in cands:
+                    if c in reach:
+                        continue
+                    if feasible(c):
+                        add(c, caller, n)
+                    else:
+                        rest.append(c)
+                if rest:
+                    still.append((caller, n, rest))
+            pending = still
+            if not work:
+                break
+        return reach, inst
+
     def chain(self, closure, fid):
         """Call chain root -> fid from a closure() result."""
         out = []
